@@ -591,6 +591,7 @@ struct RunStats {
     /// (property name, history, problems)
     violations: Vec<(String, Vec<u8>, Vec<String>)>,
     found: Vec<String>,
+    samples: Vec<String>,
 }
 
 fn run_tree<G: Cv>(sh: &Shared<G>, max1: usize, max2: usize, two: bool, probe_depth: usize, start: std::time::Instant, budget: std::time::Duration) -> RunStats {
@@ -636,7 +637,8 @@ fn run_tree<G: Cv>(sh: &Shared<G>, max1: usize, max2: usize, two: bool, probe_de
         }
     }
     found.push(format!("closing probes run: {}", probes));
-    RunStats { states: c.state_count() as u64, unique: c.unique_state_count() as u64, depth: c.max_depth() as u64, validated, violations: v, found }
+    let samples: Vec<String> = pick(&all).iter().map(|h| hist_name(h)).collect();
+    RunStats { samples, states: c.state_count() as u64, unique: c.unique_state_count() as u64, depth: c.max_depth() as u64, validated, violations: v, found }
 }
 
 fn run_merged<G: Cv>(sh: &Shared<G>, max_depth: usize, start: std::time::Instant, budget: std::time::Duration) -> RunStats {
@@ -660,7 +662,8 @@ fn run_merged<G: Cv>(sh: &Shared<G>, max_depth: usize, start: std::time::Instant
             }
         }
     }
-    RunStats { states: c.state_count() as u64, unique: c.unique_state_count() as u64, depth: c.max_depth() as u64, validated, violations: v, found: vec![] }
+    let samples: Vec<String> = pick(&all).iter().map(|s| hist_name(&s.hist)).collect();
+    RunStats { samples, states: c.state_count() as u64, unique: c.unique_state_count() as u64, depth: c.max_depth() as u64, validated, violations: v, found: vec![] }
 }
 
 pub fn main(o: &Opts) -> i32 {
@@ -713,6 +716,9 @@ pub fn main(o: &Opts) -> i32 {
             }
             runs.push(json!({"curve": curve, "model": name, "states_generated": st.states, "unique_states": st.unique, "max_depth": st.depth, "replayed_on_impl": st.validated, "sometimes_reached": st.found}));
             rep.count(&format!("{}:states", name), st.unique);
+            for h in &st.samples {
+                rep.sample(json!({"model": name, "curve": curve, "history": h}));
+            }
             for (pname, h, detail) in st.violations {
                 let key = json!({"curve": curve, "history": hist_name(&h)});
                 rep.count("violation", 1);
